@@ -159,10 +159,10 @@ Definition el_unnamed (c : oconfig) (node : anode) (next : fstate -> fstate) (st
   match el_snippet c node next st with
   | Some st' => st'
   | None =>
-      match an_value node with
-      | Some ((_ :: _) as value) => next (push_tokens c value st)
-      | _ => st
-      end
+      next (match an_value node with
+            | Some ((_ :: _) as value) => push_tokens c value st
+            | _ => st
+            end)
   end.
 
 Definition el_body (c : oconfig) (node : anode) (next : fstate -> fstate) (st : fstate) : fstate :=
